@@ -7,10 +7,10 @@
    `dec_m`/`dec_d` are the (arbitrary) decompressors; `wf_hist` says that every bulk of h decodes
    to its own non-empty documents and that equal IDs carry equal documents; `acked_of h` /
    `tried_of h` are the bulks h acknowledges / interrupts; `fetch`/`search` read through the index
-   rebuilt by the last start. `wf_hist` also says `fault_free`: no write of the history fails with an
-   I/O error (HFault). Histories WITH such a failure are executable in the same model (it mirrors
-   what FileWriter/ActiveWriter leave behind) and violate the statements: see the two
-   C01_fault_refuted_* examples at the end (genuine defects of the current code, reported). *)
+   rebuilt by the last start. Histories may contain writes that fail with an I/O
+   error (HFault: the unit is rolled back, commit ce3aaa8) and crashes inside such a failed unit or
+   its rollback (HFaultCrash; `wf_hist` asks that the meta block of such a unit is incomplete). The
+   write path before ce3aaa8 is kept as run_f0 with the two C01_fault_v0_refuted_* examples. *)
 From Coq Require Import List NArith.
 From C01 Require Import Model Proofs Proofs2 Proofs4 Proofs6 Proofs7 CaseDefs Witness.
 Import ListNotations.
@@ -167,24 +167,39 @@ Proof.
   split; [exact A |]. split; [exact B |]. split; [discriminate |]. split; [exact C | exact D].
 Qed.
 
-(* ---------- a single write that FAILS (EFBIG/ENOSPC/EIO), no crash: FileWriter.Write has advanced
-   its offset and never takes it back, so the blocks of later, acknowledged bulks no longer start
-   where Replay (summing Ext1) will look for them. The model mirrors the current code; without the
-   hypothesis fault_free the durability statement is false: ---------- *)
+(* ---------- I/O faults: the hypotheses of the theorems are met by histories with a failed docs write, a
+   failed meta write, and a crash inside the rollback; the later acknowledged bulk stays intact ---------- *)
+Example C01_fault_nonvacuous :
+  wf_hist wdm wdd (w_fault_hist true 34) /\ wf_hist wdm wdd (w_fault_crash_hist 0 34) /\
+  acked_of (w_fault_hist true 34) = [wb1; wb3] /\ tried_of (w_fault_hist true 34) = [wb2] /\
+  final_fetch (run wdm (w_fault_hist false 2)) 3 = Some (Body (d_body wd3)) /\
+  final_fetch (run wdm (w_fault_hist true 34)) 3 = Some (Body (d_body wd3)) /\
+  final_fetch (run wdm (w_fault_hist true 34)) 2 = Some Absent /\
+  final_fetch (run wdm (w_fault_crash_hist 0 34)) 3 = Some (Body (d_body wd3)) /\
+  final_fetch (run wdm (w_fault_crash_hist 36 34)) 3 = Some (Body (d_body wd3)).
+Proof.
+  split; [apply w_fault_wf |]. split; [apply w_fault_crash_wf |].
+  split; [reflexivity |]. split; [reflexivity |]. exact w_fault_repaired.
+Qed.
+
+(* ---------- the write path before commit ce3aaa8 (run_f0): a single write that FAILS
+   (EFBIG/ENOSPC/EIO), no crash: FileWriter.Write has advanced its offset and never takes it back,
+   so the blocks of later, acknowledged bulks no longer start where Replay (summing Ext1) looks
+   for them ---------- *)
 
 (* the docs write of bulk 2 fails after 2 bytes; bulk 3 is acknowledged and readable while the
-   store runs; after the next start its document cannot be fetched and meta order <> docs order *)
-Example C01_fault_refuted_docs_write :
-  wf_hist_faulty wdm wdd (w_fault_hist false 2) /\
+   store runs; after the next start its document cannot be fetched *)
+Example C01_fault_v0_refuted_docs_write :
+  wf_hist wdm wdd (w_fault_hist false 2) /\
   In wb3 (acked_of (w_fault_hist false 2)) /\ In wd3 (b_docs wb3) /\
-  live_fetch [HRestart; HBulk wb1; HFault wb2 false 2; HBulk wb3] (d_id wd3) = Some (Body (d_body wd3)) /\
-  final_fetch (run wdm (w_fault_hist false 2)) (d_id wd3) = Some FetchErr.
+  final_fetch (run_f0 wdm [HRestart; HBulk wb1; HFault wb2 false 2; HBulk wb3]) (d_id wd3) = Some (Body (d_body wd3)) /\
+  final_fetch (run_f0 wdm (w_fault_hist false 2)) (d_id wd3) = Some FetchErr.
 Proof.
   split; [apply w_fault_wf |]. split; [right; left; reflexivity |]. split; [left; reflexivity |].
   split; [exact w_fault_docs_live | exact (proj1 w_fault_docs_restart)].
 Qed.
 
 (* the meta write of bulk 2 fails after 34 bytes; bulk 3 is acknowledged; the next start dies *)
-Example C01_fault_refuted_meta_write :
-  wf_hist_faulty wdm wdd (w_fault_hist true 34) /\ run wdm (w_fault_hist true 34) = Panic.
+Example C01_fault_v0_refuted_meta_write :
+  wf_hist wdm wdd (w_fault_hist true 34) /\ run_f0 wdm (w_fault_hist true 34) = Panic.
 Proof. split; [apply w_fault_wf | exact w_fault_meta_restart]. Qed.
